@@ -112,6 +112,7 @@ type trans struct {
 	inHeadHavoc bool
 	localAllocs map[*ssa.Alloc]bool
 	heapRefs    map[string]string
+	heapVal     map[string]types.Type // struct-valued heaps: the value type (for well-formedness of nested references)
 	curCallArgs []ssa.Value
 	stableHeaps map[string]bool
 }
@@ -163,6 +164,9 @@ func (tr *trans) initSym(name string) Term {
 	case "arrslice":
 		decl += fmt.Sprintf("\n(assert (forall ((r Int) (i Int)) (! (=> %s (and (<= 0 (sarr (select (select %s r) i))) (< (sarr (select (select %s r) i)) %s))) :pattern ((select (select %s r) i)))))", g, s, s, n0, s)
 	}
+	if k := tr.heapRefs[name]; k == "struct" || k == "arrstruct" {
+		decl += "\n(assert " + tr.structWF(name, s, g, n0) + ")"
+	}
 	if name != "$next" && tr.heapRefs[name] != "" {
 		tr.vc.declFun("state:$next", fmt.Sprintf("(declare-const %s Int)", n0))
 	}
@@ -211,9 +215,54 @@ func (tr *trans) havocState(st State, name string) Term {
 	return sym
 }
 
+// assumeHeapWF: memory safety of heaps whose content was just made arbitrary (loop head, callee): whatever an
+// existing object holds denotes an object that exists now. Go guarantees this of every heap at all times; it
+// is stated after a havoc because the havoc forgets it.
+func (tr *trans) assumeHeapWF(st State, names []string) {
+	nx := tr.getState(st, "$next")
+	for _, name := range names {
+		kind := tr.heapRefs[name]
+		if kind == "" || name == "$next" {
+			continue
+		}
+		s, ok := st[name]
+		if !ok {
+			continue
+		}
+		g := fmt.Sprintf("(or (and (< 0 r) (< r %s)) (and (< 0 (fptr.base r)) (< (fptr.base r) %s)))", nx, nx)
+		switch kind {
+		case "ptr":
+			tr.vc.assume(fmt.Sprintf("(forall ((r Int)) (! (=> %s (and (<= 0 (select %s r)) (< (select %s r) %s))) :pattern ((select %s r))))", g, s, s, nx, s))
+		case "slice":
+			tr.vc.assume(fmt.Sprintf("(forall ((r Int)) (! (=> %s (and (<= 0 (sarr (select %s r))) (< (sarr (select %s r)) %s))) :pattern ((select %s r))))", g, s, s, nx, s))
+		case "arrptr":
+			tr.vc.assume(fmt.Sprintf("(forall ((r Int) (i Int)) (! (=> %s (and (<= 0 (select (select %s r) i)) (< (select (select %s r) i) %s))) :pattern ((select (select %s r) i))))", g, s, s, nx, s))
+		case "arrslice":
+			tr.vc.assume(fmt.Sprintf("(forall ((r Int) (i Int)) (! (=> %s (and (<= 0 (sarr (select (select %s r) i))) (< (sarr (select (select %s r) i)) %s))) :pattern ((select (select %s r) i))))", g, s, s, nx, s))
+		case "struct", "arrstruct":
+			tr.vc.assume(tr.structWF(name, s, g, nx))
+		}
+	}
+}
+
+func (tr *trans) structWF(name string, s Term, g Term, nx Term) Term {
+	cell := "(select " + s + " r)"
+	vars := "((r Int))"
+	if tr.heapRefs[name] == "arrstruct" {
+		cell = "(select (select " + s + " r) i)"
+		vars = "((r Int) (i Int))"
+	}
+	var cs []Term
+	for _, l := range tr.refLeaves(cell, tr.heapVal[name], 0) {
+		cs = append(cs, app("<=", "0", l), app("<", l, nx))
+	}
+	return fmt.Sprintf("(forall %s (! (=> %s %s) :pattern (%s)))", vars, g, and(cs...), cell)
+}
+
 func (tr *trans) havocAll(st State) { tr.havocAllExcept(st, nil) }
 
 func (tr *trans) havocAllExcept(st State, keep map[string]bool) {
+	var havocked []string
 	for _, name := range sortedKeys(tr.known) {
 		if keep[name] {
 			continue
@@ -238,7 +287,9 @@ func (tr *trans) havocAllExcept(st State, keep map[string]bool) {
 			continue
 		}
 		tr.havocState(st, name)
+		havocked = append(havocked, name)
 	}
+	tr.assumeHeapWF(st, havocked)
 }
 
 func (tr *trans) structHeap(t types.Type, i int) string {
@@ -246,6 +297,7 @@ func (tr *trans) structHeap(t types.Type, i int) string {
 	name := "H." + typeKey(t) + "." + st.Field(i).Name()
 	tr.stateSort[name] = "(Array Int " + tr.vc.sortOf(st.Field(i).Type()) + ")"
 	tr.heapRefs[name] = refKind(st.Field(i).Type())
+	tr.noteHeapType(name, st.Field(i).Type(), false)
 	return name
 }
 
@@ -253,6 +305,7 @@ func (tr *trans) cellHeap(t types.Type) string {
 	name := "H." + typeKey(t)
 	tr.stateSort[name] = "(Array Int " + tr.vc.sortOf(t) + ")"
 	tr.heapRefs[name] = refKind(t)
+	tr.noteHeapType(name, t, false)
 	return name
 }
 
@@ -262,7 +315,47 @@ func (tr *trans) arrHeap(elem types.Type) string {
 	if k := refKind(elem); k != "" {
 		tr.heapRefs[name] = "arr" + k
 	}
+	tr.noteHeapType(name, elem, true)
 	return name
+}
+
+// noteHeapType: struct values stored in a heap cell carry references too (q.Filters.Author): the heap is then
+// of kind "struct"/"arrstruct" and its well-formedness speaks about every reference leaf of the value.
+func (tr *trans) noteHeapType(name string, t types.Type, arr bool) {
+	if tr.heapVal == nil {
+		tr.heapVal = map[string]types.Type{}
+	}
+	if _, isStruct := t.Underlying().(*types.Struct); isStruct && tr.heapRefs[name] == "" {
+		if len(tr.refLeaves("x", t, 0)) > 0 {
+			tr.heapVal[name] = t
+			if arr {
+				tr.heapRefs[name] = "arrstruct"
+			} else {
+				tr.heapRefs[name] = "struct"
+			}
+		}
+	}
+}
+
+// refLeaves: the reference-valued leaves (pointer/map/chan refs, slice array refs) of a value term of type t.
+func (tr *trans) refLeaves(v Term, t types.Type, depth int) []Term {
+	switch u := t.Underlying().(type) {
+	case *types.Pointer, *types.Map, *types.Chan:
+		return []Term{v}
+	case *types.Slice:
+		return []Term{"(sarr " + v + ")"}
+	case *types.Struct:
+		if depth > 3 {
+			return nil
+		}
+		tr.vc.sortOf(t)
+		var out []Term
+		for i := 0; i < u.NumFields(); i++ {
+			out = append(out, tr.refLeaves(app(tr.vc.fieldAcc(t, i), v), u.Field(i).Type(), depth+1)...)
+		}
+		return out
+	}
+	return nil
 }
 
 func (tr *trans) mapHeap(m *types.Map, part string) string {
@@ -922,7 +1015,7 @@ func TranslateFunc(prog *Program, fn *ssa.Function, fc *FuncContract) *trans {
 	}
 	// final pass
 	tr2 := &trans{prog: prog, fn: fn, fc: fc, key: funcKey(fn), vc: NewVC(prog), vals: map[ssa.Value]Term{}, tuples: map[ssa.Value][]Term{},
-		stateSort: tr.stateSort, heapRefs: tr.heapRefs, known: map[string]bool{}, in: map[int]State{}, out: map[int]State{}, reach: map[int]Term{},
+		stateSort: tr.stateSort, heapRefs: tr.heapRefs, heapVal: tr.heapVal, known: map[string]bool{}, in: map[int]State{}, out: map[int]State{}, reach: map[int]Term{},
 		edgeCond: map[[2]int]Term{}, pure: map[string]*fnRef{}, assumed: map[string]bool{}, specRefs: map[string]*fnRef{}, globals: map[string]string{},
 		nobl: map[string]int{}, dispatched: map[string]bool{}, termVal: map[Term]ssa.Value{}, termBlock: map[Term]int{}, termFresh: map[Term]bool{},
 		loopWrites: loopWrites, curWrites: map[int]map[string]*writeSet{}, localAllocs: map[*ssa.Alloc]bool{}}
@@ -1156,6 +1249,7 @@ func (tr *trans) block(b *ssa.BasicBlock) {
 			}
 		}
 		tr.inHeadHavoc = false
+		tr.assumeHeapWF(st, sortedKeys(li.modified))
 	}
 	if li != nil {
 		tr.out[-1000-bi] = st.clone()
